@@ -126,8 +126,15 @@ package dns
 //@   requires 0 <= off && off <= len(msg)
 //@   ensures ret2 == nil && ret1 == len(msg)
 
+// every rejection of a type bitmap is one RFC 4034 4.1.2 prescribes: truncated block header, windows not
+// increasing, empty block, block longer than 32 octets, block overrunning the RDATA - and nothing else
 //@ func unpackDataNsec [C01 C02]
 //@   requires 0 <= off
+//@   assert at "overflow unpacking NSEC(3)" e1: off + 2 > len(msg) [C01]
+//@   assert at "out of order NSEC(3) block" e2: window <= lastwindow [C01]
+//@   assert at "empty NSEC(3) block" e3: length == 0 [C01]
+//@   assert at "block too long in type bitmap" e4: length > 32 [C01]
+//@   assert at "overflowing NSEC(3) block" e5: off + length > len(msg) [C01]
 //@   ensures ok:   ret2 == nil ==> off <= ret1 && (off <= len(msg) ==> ret1 <= len(msg))
 //@   ensures fail: ret2 != nil ==> ret1 == len(msg)
 //@   loop 1 invariant old(off) <= off && (old(off) <= len(msg) ==> off <= len(msg))
@@ -251,7 +258,7 @@ package dns
 // ---- packers of fixed-width fields --------------------------------------------------------------------------
 // Each writes exactly its big-endian octets at [off, off+w) and nothing else, or fails with off1 == len(msg).
 
-//@ func packUint8 [C01 C08]
+//@ func packUint8 [C01 C08 C16]
 //@   requires 0 <= off
 //@   ensures ok:    err == nil ==> off1 == off + 1 && off1 <= len(msg) && msg[off] == i
 //@   ensures fail:  err != nil ==> off1 == len(msg)
@@ -259,7 +266,7 @@ package dns
 //@   ensures frame: forall k in 0..len(msg) :: (k < off || k >= off + 1) ==> msg[k] == old(msg[k])
 //@   writes msg
 
-//@ func packUint16 [C01 C08]
+//@ func packUint16 [C01 C08 C16]
 //@   requires 0 <= off
 //@   ensures ok:    err == nil ==> off1 == off + 2 && off1 <= len(msg) && msg[off] == i / 256 && msg[off+1] == i % 256
 //@   ensures fail:  err != nil ==> off1 == len(msg)
@@ -267,7 +274,7 @@ package dns
 //@   ensures frame: forall k in 0..len(msg) :: (k < off || k >= off + 2) ==> msg[k] == old(msg[k])
 //@   writes msg
 
-//@ func packUint32 [C01 C08]
+//@ func packUint32 [C01 C08 C16]
 //@   requires 0 <= off
 //@   ensures ok:    err == nil ==> off1 == off + 4 && off1 <= len(msg) && msg[off] == i / 16777216 && msg[off+1] == (i / 65536) % 256 && msg[off+2] == (i / 256) % 256 && msg[off+3] == i % 256
 //@   ensures fail:  err != nil ==> off1 == len(msg)
@@ -275,7 +282,7 @@ package dns
 //@   ensures frame: forall k in 0..len(msg) :: (k < off || k >= off + 4) ==> msg[k] == old(msg[k])
 //@   writes msg
 
-//@ func packUint48 [C01 C08]
+//@ func packUint48 [C01 C08 C16]
 //@   requires 0 <= off
 //@   ensures ok:    err == nil ==> off1 == off + 6 && off1 <= len(msg) && msg[off] == (i / 1099511627776) % 256 && msg[off+1] == (i / 4294967296) % 256 && msg[off+2] == (i / 16777216) % 256 && msg[off+3] == (i / 65536) % 256 && msg[off+4] == (i / 256) % 256 && msg[off+5] == i % 256
 //@   ensures fail:  err != nil ==> off1 == len(msg)
@@ -283,7 +290,7 @@ package dns
 //@   ensures frame: forall k in 0..len(msg) :: (k < off || k >= off + 6) ==> msg[k] == old(msg[k])
 //@   writes msg
 
-//@ func packUint64 [C01 C08]
+//@ func packUint64 [C01 C08 C16]
 //@   requires 0 <= off
 //@   ensures ok:    err == nil ==> off1 == off + 8 && off1 <= len(msg)
 //@   ensures fail:  err != nil ==> off1 == len(msg)
@@ -298,7 +305,7 @@ package dns
 //@   ensures len(buf) <= len(s)
 //@   writes s
 
-//@ func packStringBase64 [C01 C08]
+//@ func packStringBase64 [C01 C08 C16]
 //@   requires 0 <= off
 //@   ensures ok:    ret1 == nil ==> off <= ret0 && ret0 <= len(msg)
 //@   ensures fail:  ret1 != nil ==> ret0 == len(msg)
